@@ -273,7 +273,9 @@ pub fn run_batch(scens: &[&'static Scenario], opts: &BatchOpts) -> BatchResult {
                             }
                             let seed = run_seed(opts.base_seed, i);
                             *heart.started.lock().unwrap() = Some((Instant::now(), i, seed));
-                            let out = execute(scen, RunInput::new(seed, opts.tier));
+                            let mut input = RunInput::new(seed, opts.tier);
+                            input.index = i;
+                            let out = execute(scen, input);
                             *heart.started.lock().unwrap() = None;
                             let mut a = agg.lock().unwrap();
                             a.evaluations += 1;
@@ -377,7 +379,7 @@ pub fn run_batch(scens: &[&'static Scenario], opts: &BatchOpts) -> BatchResult {
         a.violations.sort_by_key(|v| v.0);
         if let Some((i, seed, v)) = a.violations.first().cloned() {
             eprintln!("scenario {}: violation at run {i} seed {seed}: [{}] {}", scen.name, v.class, v.msg);
-            let (min_input, min_v, steps) = minimise(scen, opts.tier, seed, &v);
+            let (min_input, min_v, steps) = minimise(scen, opts.tier, seed, i, &v);
             let mut rec = min_input.clone();
             rec.record_log = true;
             let out = execute(scen, rec);
@@ -516,8 +518,9 @@ fn same_class(out: &RunOutput, v: &Violation) -> Option<Violation> {
 
 /// Shrink the fault set (ddmin over the faults that fired) and the scenario parameters while the
 /// same violation class persists. Hang classes are not minimised (cannot be re-executed safely).
-pub fn minimise(scen: &'static Scenario, tier: Tier, seed: u64, v: &Violation) -> (RunInput, Violation, usize) {
+pub fn minimise(scen: &'static Scenario, tier: Tier, seed: u64, index: u64, v: &Violation) -> (RunInput, Violation, usize) {
     let mut best = RunInput::new(seed, tier);
+    best.index = index;
     let mut best_v = v.clone();
     let mut steps = 0usize;
     let budget = 300usize;
@@ -653,6 +656,7 @@ pub fn write_replay(
         "property": scen.id,
         "scenario": scen.name,
         "seed": input.seed,
+        "index": input.index,
         "tier": tier.as_str(),
         "overrides": input.overrides,
         "fault_mode": mode,
@@ -691,6 +695,7 @@ pub fn replay(all: &[&'static Scenario], path: &str) -> i32 {
     };
     let tier = if doc["tier"] == "thorough" { Tier::Thorough } else { Tier::Quick };
     let mut input = RunInput::new(doc["seed"].as_u64().unwrap(), tier);
+    input.index = doc["index"].as_u64().unwrap_or(0);
     if let Some(o) = doc["overrides"].as_object() {
         for (k, v) in o {
             input.overrides.insert(k.clone(), v.as_i64().unwrap());
